@@ -13,7 +13,8 @@ from .common import enc_ext, enc_list, Toks
 RULE = ('grammars from the C01 (non-recursive) and C02 (recursive, finite) generators; Real and Log; methods fixed-point/newton/linear; '
         'random non-uniform output cotangents; requires_grad on all factors or on a strict subset; factors shared between rules and '
         'factors that cannot reach the start; non-trivial = some weight entry has a non-zero derivative')
-ASSUMPTIONS = ['torch autograd chains the per-SCC backward functions (trusted)',
+ASSUMPTIONS = ['fggs.sum_product.J is also called directly (MultiTensor of random integer values) and compared block by block with Pipe.jac',
+               'torch autograd chains the per-SCC backward functions (trusted)',
                'recursive grammars: derivative of the least fixed point compared within 1e-5 relative (tolerance regime)']
 
 
@@ -122,6 +123,11 @@ def run_case(ctx, shape, recursive, linear):
                 ctx.count('model-not-converged-skipped')
                 return False
     case = dict(shape=shape, recursive=recursive)
+    # the Jacobian itself (what backward and newton are built on): J at a random point against the model `Pipe.jac`
+    from . import jac
+    jac.stream(ctx, shape, 'real', 'J', case)
+    if 'vweights' in shape:
+        jac.stream(ctx, shape, 'viterbi', 'J', case)
     nontriv = any(d != 0 for e in entries for d in model[e])
     ctx.case(case, repr(shape) if nontriv else None, sample_every=30)
     ctx.count('recursive' if recursive else 'nonrecursive')
